@@ -11,7 +11,7 @@ import os
 import subprocess
 import sys
 
-from common import VERIF, S, L, run_driver, to_str, rng_for
+from common import VERIF, S, L, run_driver, to_str, rng_for, load_known_findings
 
 WORKER = os.path.join(VERIF, 'harness', 'purity_worker.py')
 
@@ -75,13 +75,46 @@ def run(rep, ctx):
     if not ok_col:
         rep.violation('c17-colours', {'what': 'the colour variables changed results that carry no styling', 'cases': changed[:10]})
     rep.obligation('exploration c17: the colour variables change only results that carry a style block (%d of %d cases)' % (len(changed), n_cases), ok_col)
-    noise = run_worker(0, 'natural', 1, {'TZ': 'Pacific/Kiritimati', 'LANG': 'tr_TR.UTF-8', 'LC_ALL': 'C', 'PYTHONUTF8': '1', 'COLUMNS': '7'})
+    noise = run_worker(0, 'natural', 1, {'TZ': 'Pacific/Kiritimati', 'LANG': 'tr_TR.UTF-8', 'PYTHONUTF8': '1', 'COLUMNS': '7', 'LC_COLLATE': 'C', 'LC_NUMERIC': 'C', 'LC_TIME': 'C'})
     ok_noise = noise['digests'] == base['digests']
     rep.count(('noise-env',), True)
     if not ok_noise:
-        rep.violation('c17-env', {'what': 'unrelated environment variables (TZ, LANG, LC_ALL, COLUMNS) changed a result',
+        rep.violation('c17-env', {'what': 'unrelated environment variables (TZ, LANG, LC_COLLATE/NUMERIC/TIME, PYTHONUTF8, COLUMNS) changed a result',
                                   'cases': [c for c, d in noise['digests'].items() if base['digests'][c] != d][:10]})
     rep.obligation('exploration c17: unrelated environment variables change nothing', ok_noise)
+    # ---- the process locale (LC_ALL=C: character classification of the C library).  Listed finding C17-dmp-locale: the native
+    # diff-match-patch call of compute_dmp_diff classifies characters with the C library's LC_CTYPE, so its semantic clean-up puts
+    # edit boundaries elsewhere for text with non-ASCII letters.  Every difference under LC_ALL=C must flow through that call site:
+    # with that one call pinned to a fixed LC_CTYPE the results must be those of the base run again, else it is a new violation.
+    known = [k for k in load_known_findings('C17') if k['id'] == 'C17-dmp-locale']
+    loc = run_worker(0, 'natural', 1, {'LC_ALL': 'C'})
+    loc_changed = sorted(c for c, d in loc['digests'].items() if base['digests'][c] != d)
+    rep.count(('locale-env', len(loc_changed)), True)
+    rep.extra['cases_changed_by_LC_ALL_C'] = loc_changed[:20]
+    ok_loc = True
+    if loc_changed:
+        pinned = run_worker(0, 'natural', 1, {'LC_ALL': 'C', 'WMD_VERIF_PIN_DMP_LOCALE': '1'})
+        residual = sorted(c for c, d in pinned['digests'].items() if base['digests'][c] != d)
+        rep.count(('locale-env-pinned', len(residual)), True)
+        if residual or not known:
+            ok_loc = False
+            rep.violation('c17-locale', {'what': 'the process locale (LC_ALL=C) changed a result' + (' and the difference does NOT flow through the native diff-match-patch call '
+                                         '(it remains with that call pinned to a fixed LC_CTYPE)' if residual else ''), 'cases': (residual or loc_changed)[:10],
+                                         'replay_cmd': 'LC_ALL=C PYTHONHASHSEED=0 PYTHONPATH=/repo /venv/bin/python harness/purity_worker.py natural  (compare digests with a run without LC_ALL)'})
+    rep.obligation('exploration c17: the process locale changes no result except through the listed native diff call (%d case(s) changed, all attributed)' % len(loc_changed), ok_loc)
+    for k in known:          # the listed input itself, replayed: reported while it still fails
+        inp = k['input']
+        args = ['one', inp['differ'], json.dumps(inp['kwargs'])]
+        outs = []
+        for extra in ({}, inp['environment']):
+            env = dict(os.environ, PYTHONHASHSEED='0', PYTHONPATH='/repo', **extra)
+            o = subprocess.run(['/venv/bin/python', '-W', 'ignore', WORKER] + args, env=env, capture_output=True, text=True, timeout=300)
+            outs.append(o.stdout.strip().splitlines()[-1] if o.returncode == 0 and o.stdout.strip() else 'failed: ' + o.stderr[-200:])
+        rep.count(('known', k['id']), True)
+        if outs[0] != outs[1]:
+            rep.known_finding(k['what'])
+        else:
+            rep.extra.setdefault('known_findings_no_longer_failing', []).append(k['id'])
 
     # ---- the theorem's instance, run: the extracted sort on permuted inputs; and against the implementation's sorted list
     if ctx['model_available']:
